@@ -31,6 +31,10 @@ def check_bank(ctx, pid="C21"):
     from . import kinds
 
     ctx.floor(pid, "MemoryBank reset_less registers", kinds.register_wire_discipline(ctx, pid, comp, "MemoryBank"), 2, comp.site)
+    from . import c21x
+
+    c21x.data_path_indices(ctx, comp, pid)
+    ctx.floor(pid, "MemoryBank local signals read", kinds.read_locals_driven(ctx, pid, comp, "MemoryBank"), 4, comp.site)
     for ex in comp.configs:
         cn = cfg_name(ex)
         req, resp, wr = (need_body(ex, n, pid, comp.site) for n in ("read_req", "read_resp", "write"))
